@@ -1,3 +1,5 @@
 import ZkVerif.Audit
 import ZkVerif.Props.C12
+import ZkVerif.Props.Finish
 #audit_ns ZkVerif.C12
+#audit_ns ZkVerif.Finish
